@@ -253,7 +253,7 @@ theorem shoot_threshold_counterexample :
     | error e => rw [hs] at hrep; cases hrep
     | ok o =>
       rw [hs] at hrep; simp only [Except.toOption, Option.some.injEq] at hrep; subst hrep
-      exact ⟨_, rfl, rfl⟩
+      exact ⟨_, hs, rfl⟩
 
 /-- **What does hold for the as-is code.** Under the same hypotheses (absolute limit not binding):
     acceptance implies `ξ ≤ n_old/n_new`, and the trials with `ξ ≤ n_old/n_new` that are nevertheless
